@@ -722,4 +722,5 @@ def main(tier):
     import acct, c19, llir, c17
     rep.attempt(c17.check_dict_tail, rep, llir.library('default'))
     rep.attempt(acct.check, rep, 'i', 50, c19.field_offsets('struct isal_zstream', ['next_in', 'avail_in', 'total_in', 'next_out', 'avail_out', 'total_out']), c19.field_offsets('struct inflate_state', ['next_in', 'avail_in', 'next_out', 'avail_out', 'total_out']), llir.library('default'))
+    rep.attempt(acct.check_stored_len, rep, llir.library('default'), c19.field_offsets('struct inflate_state', ['next_in', 'avail_in', 'next_out', 'avail_out', 'total_out', 'type0_block_len']))
     return rep.finish()
